@@ -343,7 +343,9 @@ def _leeds(ctx, pkg):
     if len(inc) == 1 and len(inc[0].loops) == 1:
         lp = inc[0].loops[0]
         it = simp(lp.iter)
-        loopvar_ok = it[0] == "call" and it[1] == ("global", "zip") and len(it[2]) == 2 and not [g for g in inc[0].guards if "label" in show(g[0]) or "elem" in show(simp(g[0]))]
+        # guards of polarity False come from the `else: raise` of the label chain (unknown labels never reach the increment)
+        loopvar_ok = it[0] == "call" and it[1] == ("global", "zip") and len(it[2]) == 2 and \
+            not [g for g in inc[0].guards if g[1] is True and "react_string.strip()" not in show(simp(g[0]))]
     ctx.check(len(inc) == 1 and inc[0].op == "Add" and loopvar_ok and len(init) >= 1 and simp(init[0][0]) == ("const", 0), "R4", "Leeds:cursor", (file, inc[0].line if inc else fn.lineno),
               "the column cursor starts at 0 and advances by the field width exactly once per field", found=f"{len(inc)} increments, init {[show(x[0]) for x in init]}")
     # label -> attribute
